@@ -10,6 +10,11 @@
     harness/wire.cpp through the public Message API, comparing after EVERY call FlattenedSize(), the bytes (byte for byte against the
     specification), UnflattenFromBytes, operator== (both ways, against an identically built twin), CalculateChecksum and the re-flattened
     bytes.  Deep random scripts over all kinds at once come from TLC -simulate (WireSim.tla).
+ 2b. histories in which serialising happens IN THE MIDDLE and Messages alias each other (WireHeap.tla, TLC -simulate): three Message objects,
+    sub-Messages held by shared MessageRef (in one or several parents, or twice in one) and changed in place afterwards, item arrays shared by
+    ShareName, fields left with ZERO items when the other Message removes the last item; after EVERY call EVERY object is sized, serialised,
+    parsed and compared with the specification.  Whole vectors from WireVec: 31 / 32 / 33 / 64 / 200 levels of sub-Messages (one-item and
+    two-item fields), zero-item fields of every kind in every position, 7-item fields, each built through API detours.
  3. code -> spec: seeded random scripts (all types, dozens of items, nesting up to 4, NaN / -0 / inf / signalling-NaN patterns, non-ASCII and
     empty strings and names, raw buffers of arbitrary type codes, tags and pointers) run on the real class with the same self-checks; every
     call is logged with the bytes the code produced and TLC validates the log line by line against WireAbs (WireTrace.tla, sharded).
@@ -133,6 +138,56 @@ def run(v, tier, seed):
             notes["model_runs"].append({"instance": "WireSim all kinds, 3 names, <= 6 items", "mode": "-simulate", "behaviours": len(beh), "calls_each": depth, "states_visited": r.generated, "wall_s": round(r.wall, 1), "followed": summ.get("followed")})
             samples.append({"kind": "simulated behaviour replayed", "steps": [{k: x for k, x in s.items() if k != "b"} for s in beh[0][:6]]})
 
+    # ---- whole vectors: deep nesting (31 .. 200 levels, inline and array path), fields with zero items, 7-item fields; each built by an API script
+    def whole_vectors(parts):
+        def enum(part):
+            name = mkcfg("Vec_" + part, consts={"Part": q(part)}, invs=["VecOK", "Emit"])
+            r = tlc("WireVec", name, wirelib.FAM, workers=1, timeout=1800, heap="3g")
+            vlib.require_ok(r, "WireVec part %s" % part)
+            if len(r.printed) != r.distinct or r.distinct == 0: raise vlib.MachineryError("WireVec %s: %d vectors printed for %d states" % (part, len(r.printed), r.distinct))
+            with lock:
+                tot["states"] += r.distinct; tot["transitions"] += r.generated
+                notes["model_runs"].append({"instance": "WireVec part %s" % part, "vectors": r.distinct, "wall_s": round(r.wall, 1)})
+            return r.printed
+        with cf.ThreadPoolExecutor(max_workers=len(parts)) as ex2: vec = [x for lst in ex2.map(enum, parts) for x in lst]
+        for i, x in enumerate(vec): x["id"] = i
+        vf = W("vec.ndjson"); rep = W("vec.rep.ndjson")
+        vlib.write_ndjson(vf, vec)
+        rows, summ = wirelib.run_wire(v, ["vec01", vf, rep], "whole vectors (deep nesting, zero-item fields)", 400 if quick else 2400, "vec01")
+        wirelib.report_rows(v, rows, "vector enumerated by TLC (deep nesting / zero-item fields / long fields)", "vec01")
+        if not summ.get("aborted"):
+            with lock: heapnotes["whole_vectors"] = {"vectors": summ["vectors"], "agreed": summ["agreed"], "bytes_compared": summ["bytes_compared"], "zero_item": sum(1 for x in vec if x["zero"])}
+        if not v.violations:
+            os.remove(vf); os.remove(rep)
+
+    # ---- aliasing histories: shared sub-Messages changed in place, ShareName'd item arrays, serialising after EVERY call (WireHeap)
+    heapnotes = {"behaviours": 0, "followed": 0, "calls": 0, "object_checks": 0, "zero_item_fields_serialised": 0, "calls_on_an_object_other_messages_may_refer_to": 0, "sharenames": 0, "status_differs": 0}
+
+    def heap(inst, n, depth):
+        name = mkcfg("Heap_" + inst, consts={"Inst": q(inst), "NObj": 3, "MaxItems": 3, "MaxRefs": 3, "SimDepth": depth}, invs=["HeapOK", "Acyclic"])
+        r = tlc("WireHeap", name, wirelib.FAM, workers=1, timeout=3000, simulate=n, depth=depth + 3, seed=seed, heap="3g")
+        vlib.require_ok(r, "WireHeap %s" % inst)
+        beh = [b for b in r.printed if isinstance(b, list) and len(b) == depth + 1]
+        if len(beh) < n // 2: raise vlib.MachineryError("WireHeap printed %d behaviours, expected %d" % (len(beh), n))
+        bf = W("heap_%s.beh.ndjson" % inst); rep = W("heap_%s.rep.ndjson" % inst)
+        vlib.write_ndjson(bf, [{"id": i, "steps": s} for i, s in enumerate(beh)])
+        rows, summ = wirelib.run_wire(v, ["heap", bf, rep], "aliasing histories (%s)" % inst, 400 if quick else 2400, "heap_" + inst)
+        wirelib.report_rows(v, rows, "aliasing history (shared sub-Messages / ShareName, every object serialised after every call)", "heap_" + inst)
+        if not summ.get("aborted"):
+            with lock:
+                tot["transitions"] += r.generated; tot["behaviours"] += summ["behaviours"]; tot["followed"] += summ["followed"]; tot["steps"] += summ["steps"]; tot["status_differs"] += summ["status_differs"]
+                for k2, k3 in (("behaviours", "behaviours"), ("followed", "followed"), ("calls", "steps"), ("object_checks", "object_checks"), ("zero_item_fields_serialised", "zero_item_fields_serialised"),
+                               ("calls_on_an_object_other_messages_may_refer_to", "calls_on_an_object_other_messages_may_refer_to"), ("sharenames", "sharenames"), ("status_differs", "status_differs")): heapnotes[k2] += summ[k3]
+                if inst == "string": samples.append({"kind": "aliasing history replayed", "steps": [{k2: x for k2, x in s.items() if k2 not in ("bs",)} for s in beh[0][:7]]})
+        if not v.violations:
+            os.remove(bf); os.remove(rep)
+
+    def heap_reach(target):
+        name = mkcfg(target, consts={"Inst": q("int16"), "NObj": 3, "MaxItems": 3, "MaxRefs": 3, "SimDepth": 40}, invs=[target])
+        r = tlc("WireHeap", name, wirelib.FAM, workers=1, timeout=900, simulate=2000, depth=43, seed=seed, heap="2g")
+        if r.violated != target: raise vlib.MachineryError("vacuity guard: %s not reached by WireHeap (%s)" % (target, r.error or r.violated))
+        return True
+
     # ---- 3: code -> spec
     gen = {"messages": 0, "calls": 0, "lines_validated": 0, "accepted_shards": 0, "shards": 0, "status_differs": 0, "bytes": 0, "max_message_bytes": 0, "max_items": 0, "tlc_s": 0.0, "distinct": 0}
 
@@ -200,6 +255,9 @@ def run(v, tier, seed):
             f_inst = [ex.submit(instance, i, maxitems) for i in wirelib.GEN_INSTANCES]
             scale = float(os.environ.get("VERIF_SCALE", "1"))           # < 1: a reduced thorough run
             f_misc = [ex.submit(mixed), ex.submit(simulate, 150 if quick else max(200, int(6000 * scale)), 24 if quick else 40)]
+            f_misc += [ex.submit(whole_vectors, ["deep", "zero", "long"])]
+            f_misc += [ex.submit(heap, i, 120 if quick else max(200, int(4000 * scale)), 30 if quick else 45) for i in ("int16", "string", "raw")]
+            f_misc += [ex.submit(heap_reach, t) for t in ("Reach_ZeroItemField", "Reach_SharedChildChanged")]
             f_wrong = [ex.submit(wrong, *w) for w in WRONG]
             f_reach = [ex.submit(reach, t) for t in ("Reach_ThreeItems", "Reach_BackToOne")]
             f_cov = ex.submit(action_coverage)
@@ -230,6 +288,9 @@ def run(v, tier, seed):
     need = ["0>1", "1>2", "2>1", "1>0", "2>3", "3>2"]
     if not v.violations and any(trans.get(k, 0) == 0 for k in need): raise vlib.MachineryError("vacuity guard: item-count transitions never exercised: %s (%s)" % ([k for k in need if not trans.get(k)], trans))
     if tot["followed"] == 0 and not v.violations: raise vlib.MachineryError("no behaviour could be followed")
+    if not v.violations and min(heapnotes["zero_item_fields_serialised"], heapnotes["calls_on_an_object_other_messages_may_refer_to"], heapnotes["sharenames"]) == 0:
+        raise vlib.MachineryError("vacuity guard: the aliasing histories never serialised a zero-item field / changed an object behind a reference / shared a field: %s" % heapnotes)
+    notes["guards"]["reached"] += ["Reach_ZeroItemField", "Reach_SharedChildChanged"]
     if tot["status_differs"] or gen["status_differs"]:
         v.drift += 1
         vlib.log("DRIFT property=C01 %d replayed and %d recorded calls report another status than the documented one while every byte agrees" % (tot["status_differs"], gen["status_differs"]))
@@ -241,6 +302,7 @@ def run(v, tier, seed):
            "random_scripts": gen["messages"], "random_calls": gen["calls"], "recorded_lines_validated_by_tlc": gen["lines_validated"], "recorded_bytes": gen["bytes"],
            "largest_recorded_message_bytes": gen["max_message_bytes"], "most_items_in_a_field": gen["max_items"], "tlc_validation_wall_s": round(gen["tlc_s"], 1),
            "item_count_transitions_exercised": dict(sorted(trans.items())),
+           "aliasing_histories": heapnotes,
            "evaluations": tot["steps"] + gen["calls"], "distinct_nontrivial": tot["graph_edges"] + gen["distinct"],
            "rule": "replayed behaviours = path cover of EVERY transition (state, call, arguments) of the TLC state graphs of the %d WireMC instances (distinct by construction: one per transition; non-trivial = "
                    "followed to the end with every byte equal to the specification's) + TLC -simulate behaviours; random scripts: seeded, %d calls each, counted as distinct serialised encodings per shard" % (len(wirelib.GEN_INSTANCES), nsteps),
